@@ -564,6 +564,36 @@ def install_methods(it):
             return it.p.facts.strip_pad(b)
         raise Unsupported('bytes.strip(%r) on symbolic bytes' % (chars,))
 
+    def _bytes_just(it, args, left):
+        # b.ljust(w, fill) / b.rjust(w, fill) on symbolic operands: b with max(0, w - len(b)) fill bytes behind
+        # (before) it.  The padding is a fresh byte string of that length whose first and last byte are the
+        # fill byte (ground instances; the bytes in between are left unconstrained: an over-approximation,
+        # sound for proving).
+        b = args[0]
+        w = args[1]
+        fill = args[2] if len(args) > 2 else b' '
+        if isinstance(b, bytes) and not smt.is_z3(w) and isinstance(fill, bytes):
+            return b.ljust(w, fill) if left else b.rjust(w, fill)
+        if not (isinstance(fill, bytes) and len(fill) == 1):
+            raise Unsupported('bytes.ljust/rjust with fill %r' % (fill,))
+        from .values import int_term
+        bt_, wt = bytes_term(b), int_term(w)
+        n = z3.If(wt > z3.Length(bt_), wt - z3.Length(bt_), z3.IntVal(0))
+        pad = it.p.fresh_bytes('pad')
+        pt = bytes_term(pad)
+        it.p.assume(z3.Length(pt) == n)
+        unit = smt.bytes_lit(fill)
+        it.p.assume(z3.Or(n == 0, z3.And(z3.PrefixOf(unit, pt), z3.SuffixOf(unit, pt))))
+        return it.binop(ast.Add(), b, pad) if left else it.binop(ast.Add(), pad, b)
+
+    @M('bytes', 'ljust')
+    def bytes_ljust(it, args, kw):
+        return _bytes_just(it, args, True)
+
+    @M('bytes', 'rjust')
+    def bytes_rjust(it, args, kw):
+        return _bytes_just(it, args, False)
+
     @M('bytes', 'startswith')
     def bytes_startswith(it, args, kw):
         b, pre = args
@@ -604,6 +634,21 @@ def install_methods(it):
         if isinstance(s, str):
             return s.strip(*args[1:])
         raise Unsupported('str.strip on symbolic str')
+
+    @M('str', 'rstrip')
+    def str_rstrip(it, args, kw):
+        s = args[0]
+        if isinstance(s, str) and all(isinstance(a, str) for a in args[1:]):
+            return s.rstrip(*args[1:])
+        if len(args) == 2 and isinstance(args[1], str) and len(args[1]) == 1 and smt.is_z3(s):
+            # s == r ++ t, t consists of the one character only, r does not end with it
+            c = z3.StringVal(args[1])
+            r, t = it.p.fresh('rstripped', smt.Str), it.p.fresh('stripped_tail', smt.Str)
+            it.p.assume(s == z3.Concat(r, t))
+            it.p.assume(z3.InRe(t, z3.Star(z3.Re(c))))
+            it.p.assume(z3.Not(z3.SuffixOf(c, r)))
+            return r
+        raise Unsupported('str.rstrip%r on symbolic str' % (tuple(args[1:]),))
 
     @M('str', 'ljust')
     def str_ljust(it, args, kw):
@@ -711,6 +756,8 @@ def install_methods(it):
     @M('dict', 'values')
     def dict_values(it, args, kw):
         d = args[0]
+        if d.base is not None and not d.entries and getattr(d, 'items_seq', None) is None:
+            return IterSource('dictvalues', d)    # value view of an abstractly given dictionary
         return ListVal([it.dict_get(d, k) for k in it.dict_keys(d)])
 
     @M('dict', 'items')
